@@ -13,6 +13,17 @@ __all__ = ['deep_round', 'shallow_round', 'simple_round']
 #FIXME: these seem *slow*... and a bit convoluted.  Maybe rewrite as classes?
 unicode = str #PYTHON3
 
+def _rebuild(original, items):
+  """a container of the type of original holding items; a namedtuple takes
+  its items as separate arguments, and what cannot be rebuilt from its items
+  (a range, ...) holds no floats and is returned as it is"""
+  try: return type(original)(items)
+  except TypeError:
+    if isinstance(original, tuple):
+      try: return type(original)(*items)
+      except TypeError: pass
+    return original
+
 def deep_round_factory(tol):
   """helper function for deep_round (a factory for deep_round functions)"""
   from klepto.tools import isiterable
@@ -25,15 +36,15 @@ def deep_round_factory(tol):
       elif isinstance(j, (str, unicode, type(BaseException()))): continue
       elif isinstance(j, dict): _args[i] = dict(zip(j.keys(), deep_round(*j.values())[0])) # keys need not be str
       elif isiterable(j): #XXX: fails on the above, so don't iterate them
-        jtype = type(j)
-        _args[i] = jtype(deep_round(*j)[0])
+        if iter(j) is j: continue # an iterator would be used up
+        _args[i] = _rebuild(j, deep_round(*j)[0])
     for i,j in kwds.items():
       if isinstance(j, float): _kwds[i] = round(j, tol)
       elif isinstance(j, (str, unicode, type(BaseException()))): continue
       elif isinstance(j, dict): _kwds[i] = dict(zip(j.keys(), deep_round(*j.values())[0])) # keys need not be str
       elif isiterable(j): #XXX: fails on the above, so don't iterate them
-        jtype = type(j)
-        _kwds[i] = jtype(deep_round(*j)[0])
+        if iter(j) is j: continue # an iterator would be used up
+        _kwds[i] = _rebuild(j, deep_round(*j)[0])
     return argstype(_args), _kwds
   return deep_round
 
@@ -151,24 +162,20 @@ def shallow_round_factory(tol):
       return dict((i, round(j, tol) if isinstance(j, float) else j) for i,j in iterable.items())
     from klepto.tools import isiterable
     if not isiterable(iterable): return iterable
-    itype = type(iterable)
+    if iter(iterable) is iterable: return iterable # an iterator would be used up
     _iterable = list(iterable)
     for i,j in enumerate(iterable):
       if isinstance(j, float): _iterable[i] = round(j, tol)
-    return itype(_iterable)
+    return _rebuild(iterable, _iterable)
   def shallow_round(*args, **kwds):
     argstype = type(args) 
     _args = list(args)
     _kwds = kwds.copy()
     for i,j in enumerate(args):
-      try:
-        jtype = type(j)
-        _args[i] = jtype(around(j, tol))
+      try: _args[i] = around(j, tol)
       except: pass
     for i,j in kwds.items():
-      try:
-        jtype = type(j)
-        _kwds[i] = jtype(around(j, tol))
+      try: _kwds[i] = around(j, tol)
       except: pass
     return argstype(_args), _kwds
   return shallow_round
